@@ -89,6 +89,20 @@ NOTES = {
     "C15_5": ("only no-failing-input-found at first run (a scripted L1 error failed every request of the tick, which hides a fallback to another request)",
               "harness/c15: a tick can fail only the FIRST request to the L1 client (every second failing tick of the random stream, two boundary "
               "cases with unfinalized roots above the finalized block and the syncer ahead)"),
+    "C03_7": ("MISSED by C03 at first run (reported by C09, whose cases have several claims per global exit root): every generated claim had exit roots of its own, so grouping by root kept the order",
+              "harness/aggsender: every third claim is made against the global exit root of the claim two claims back (A, B, A), with no additional random draw"),
+    "C06_8": ("HIDDEN at first run: its three failing cases contain the witness-only stop between AddBlockToTrack and ProcessBlock, and the check counted every failing case with that stop as the recorded finding F10",
+              "tools/vlib.py + known_findings.json: F10 carries `model_reproduces`: a failing case counts as that finding only when the implementation still does, step by step, what the model of the "
+              "code as written predicts for it (correspondence holds); when it does not, the failure is a different one and is reported - as the interface demands (a different violation of the "
+              "same property is still reported)"),
+    "C07_7": ("MISSED at first run: every injected fault was a RAISE(ABORT) (the code's own rollback succeeds and runs the callbacks) or a cancellation followed by a restart; no transaction was "
+              "lost WITHOUT the callbacks and then retried on the same instance",
+              "harness/bridge + harness/l1info: fault kind RB (every second non-cancel fault, no extra random draw): the failing statement raises ROLLBACK, SQLite rolls the "
+              "transaction back itself, db.Tx.Rollback returns an error before the rollback callbacks, the tree keeps its advanced frontier, the driver's retry runs on the same "
+              "instance. The model needs no new case: after such a loss the unchanged AddLeaf sees the index mismatch and rebuilds the cache, which is what the model's rollback "
+              "(cache invalidated) predicts"),
+    "C07_8": ("only no-failing-input-found at first run (same gap as C07_7: no lost transaction retried on the same instance)",
+              "the RB fault kind in harness/l1info (C07's L1 info tree part) => concrete failing input"),
     "C05_8": ("only no-failing-input-found at first run (754 correspondence mismatches: an extra empty block per removed log): the scripted node gave removed logs the canonical block hash",
               "harness/c05: every second removed log carries the hash of the block it was removed from (an orphan hash), as a real node reports it; "
               "the unchanged downloader drops removed logs before it looks at them, so nothing else moves"),
